@@ -64,14 +64,15 @@ type c19Event struct {
 const (
 	c19SrcV1 = "@ GET /v {\n  > {version: 1}\n}\n"
 	// v2 also has a route with a typed body: a served v2 must accept {"name": ...}
-	c19SrcV2 = "# second version\n: Item {\n  name: str!\n}\n\n@ GET /v {\n  $ n = 2\n  > {version: n}\n}\n\n@ POST /item {\n  < input: Item\n  > {accepted: input.name}\n}\n"
+	// and reject a nested Part without its required sku (the type table AND whatever is derived from it)
+	c19SrcV2 = "# second version\n: Part {\n  sku: str!\n}\n: Item {\n  name: str!\n  part: Part\n}\n\n@ GET /v {\n  $ n = 2\n  > {version: n}\n}\n\n@ POST /item {\n  < input: Item\n  > {accepted: input.name}\n}\n"
 	c19SrcV3 = "@ static /assets \"./public\"\n\n@ GET /v {\n  > {version: 3}\n}\n"
 	// broken edits carry markers 71..75 that no valid version ever has
 	c19SrcLex    = "@ GET /v {\n  > {version: 71, note: \"unterminated}\n}\n"
 	c19SrcParse  = "@ GET /v {\n  > {version: 72\n"
 	// (the two edits that fail late redefine v2's body type)
-	c19SrcSem    = ": Item {\n  name: str!\n  qty: int!\n}\n\n@ GET /v {\n  $ n = 73\n  $ n = 74\n  > {version: n}\n}\n"
-	c19SrcStatic = ": Item {\n  name: str!\n  qty: int!\n}\n\n@ GET /v {\n  > {version: 75}\n}\n\n@ static /assets \"./missing-dir\"\n"
+	c19SrcSem    = ": Part {\n  sku: str\n}\n: Item {\n  name: str!\n  qty: int!\n  part: Part\n}\n\n@ GET /v {\n  $ n = 73\n  $ n = 74\n  > {version: n}\n}\n"
+	c19SrcStatic = ": Part {\n  sku: str\n}\n: Item {\n  name: str!\n  qty: int!\n  part: Part\n}\n\n@ GET /v {\n  > {version: 75}\n}\n\n@ static /assets \"./missing-dir\"\n"
 )
 
 var c19Events = []c19Event{
@@ -311,6 +312,16 @@ func c19Get(port int) (obs, detail string) {
 					var pm map[string]any
 					if pr.StatusCode != 200 || json.Unmarshal(pb, &pm) != nil || pm["accepted"] != "a" {
 						return "mixed", fmt.Sprintf("GET /v answers as v2 but POST /item {\"name\":\"a\"} answers %d %s", pr.StatusCode, strings.TrimSpace(string(pb)))
+					}
+					// v2's nested type demands a sku
+					pr2, err := c.Post(fmt.Sprintf("http://127.0.0.1:%d/item", port), "application/json", strings.NewReader(`{"name":"a","part":{}}`))
+					if err != nil {
+						return "noanswer", "POST /item: " + err.Error()
+					}
+					pb2, _ := io.ReadAll(io.LimitReader(pr2.Body, 4096))
+					pr2.Body.Close()
+					if pr2.StatusCode < 400 || pr2.StatusCode > 499 {
+						return "mixed", fmt.Sprintf("GET /v answers as v2 but POST /item {\"name\":\"a\",\"part\":{}} answers %d %s although v2's Part requires sku", pr2.StatusCode, strings.TrimSpace(string(pb2)))
 					}
 					return "v2", body
 				case 1, 3:
